@@ -70,6 +70,10 @@ func genYear(r *Rand) int {
 }
 
 func genDate(r *Rand) (y, m, d int) {
+	if r.P(1, 40) { // the ends of the calendar
+		e := Pick(r, [][3]int{{9999, 12, 31}, {0, 1, 1}, {9999, 12, 30}, {0, 1, 2}})
+		return e[0], e[1], e[2]
+	}
 	y = genYear(r)
 	m = r.Range(1, 12)
 	switch r.Weighted(6, 1, 1) {
